@@ -1,6 +1,8 @@
 """C03  Hold and keepalive timers keep exactly the negotiated contract."""
 import random
 
+from vlib import budget
+
 from vlib import session as S
 from vlib import wire
 from vlib.world import World, peer_open, KEEPALIVE, reactor
@@ -198,8 +200,8 @@ def fuzz_case(body, H=9):
 def plan(tier, seed):
     pairs = [(c, p) for c in HOLDS for p in HOLDS]
     nsh = 16
-    return [dict(pairs=pairs[i::nsh], seed=seed * 100 + i, n_random=6 if tier == 'quick' else 60,
-                 fuzz=800 if tier == 'quick' else 6000) for i in range(nsh)]
+    return [dict(pairs=pairs[i::nsh], seed=seed * 100 + i, n_random=6 if tier == 'quick' else 300,
+                 fuzz=800 if tier == 'quick' else 20000) for i in range(nsh)]
 
 
 def run_shard(sh):
@@ -251,6 +253,8 @@ def run_shard(sh):
     res['counters']['fuzzed_updates_continued'] = 0
     res['counters']['fuzzed_updates_ended_session'] = 0
     for i in range(sh.get('fuzz', 0)):
+        if budget.expired():
+            break
         body = mutate.random_mutation(rng.choice(upd), rng)[:4077]
         if len(body) < 4:
             continue          # shorter than an UPDATE can be (23 octets with the header): not an UPDATE that arrived
